@@ -30,6 +30,18 @@ import logging
 from ..model import SERRecord, TraceDriver
 
 
+def _with_string_keys(obj: Any) -> Any:
+    """Copy of ``obj`` in which every mapping key is a string (JSON-safe fallback)."""
+    if isinstance(obj, dict):
+        return {
+            (k if isinstance(k, str) else repr(k)): _with_string_keys(v)
+            for k, v in obj.items()
+        }
+    if isinstance(obj, (list, tuple)):
+        return [_with_string_keys(v) for v in obj]
+    return obj
+
+
 class JsonlTraceDriver(TraceDriver):
     """Persist SER records to ``*.ser.jsonl`` files."""
 
@@ -185,15 +197,23 @@ class JsonlTraceDriver(TraceDriver):
         record = asdict(event)
         record = {k: v for k, v in record.items() if v is not None}
         try:
-            self._file.write(json.dumps(record, sort_keys=True) + "\n")
+            line = json.dumps(record, sort_keys=True)
         except TypeError:
-            # Fall back to omitting problematic fields if serialization fails
-            cleaned = {
-                k: v
-                for k, v in record.items()
-                if isinstance(v, (str, int, float, bool, dict, list))
-            }
-            self._file.write(json.dumps(cleaned, sort_keys=True) + "\n")
+            # A value summarised in the record (e.g. a resolved parameter) may be a
+            # mapping whose keys cannot be sorted or are not JSON keys; tracing
+            # must not make the run fail, so such keys are written as strings.
+            record = _with_string_keys(record)
+            try:
+                line = json.dumps(record, sort_keys=True)
+            except TypeError:
+                # Fall back to omitting problematic fields if serialization fails
+                cleaned = {
+                    k: v
+                    for k, v in record.items()
+                    if isinstance(v, (str, int, float, bool, dict, list))
+                }
+                line = json.dumps(cleaned, sort_keys=True)
+        self._file.write(line + "\n")
 
     def on_pipeline_end(self, run_id: str, summary: dict) -> None:
         if not self._file:
